@@ -75,6 +75,11 @@ def plan_runs(prop, scenario, flags, ts, cfg):
             b["or_flags"] = (False, True)
         else:
             raise HarnessError("unknown paired option %r" % opt)
+        if cfg.get("real_context"):
+            # options outside the symbolically executed stage switched on for BOTH runs of the real pipeline (the pair is then judged on the real outputs)
+            for r in (a, b):
+                r["real_extra"] = dict(cfg["real_context"], **r.get("real_extra", {}))
+                r["e2e_only"] = True
         return [a, b]
     raise HarnessError("unknown scenario %r" % scenario)
 
